@@ -38,7 +38,7 @@ def run(tier, seed, replay=None):
     core.build()
     pts = universe.points(tier, seed)
     for i, (name, text) in enumerate(universe.boundary_sources()):
-        for w in ((60, 100, 125) if tier == "quick" else (23, 37, 40, 60, 77, 80, 100, 105, 120, 125, 137, 199)):
+        for w in ((30, 60, 100, 125) if tier == "quick" else (23, 30, 37, 40, 60, 77, 80, 100, 105, 120, 125, 137, 199)):
             se = universe.STYLE_EDITIONS[(core.fnv(name.encode()) + w) % 3]
             pts.append((f"{name}@w={w},se={se},v0", name, text,
                         {"max_width": w, "style_edition": se}))
